@@ -132,7 +132,8 @@ def generate(rng, config):
             v, ok = _explicit(rng, kind, n, M)
             args[comp] = {"mode": "explicit", "value": v, "valid": ok,
                           "as": rng.choice(["list", "list", "tuple", "iter",
-                                            "generator", "range"])}
+                                            "generator", "range",
+                                            "floats"])}
     case["args"] = args
     strat = rng.choice([None, None, None, "identity", "reverse", "low",
                         "high", "mix", "repeat"])
@@ -252,6 +253,7 @@ def execute(case, ctx):
                                                         len(v))):
             return range(v[0], v[0] + len(v))
         return {"tuple": tuple, "iter": iter,
+                "floats": lambda x: [float(y) for y in x],
                 "generator": lambda x: (y for y in x)}.get(a["as"], list)(v)
 
     with installed(sim), open_router(fs):
@@ -321,6 +323,16 @@ def execute(case, ctx):
                and a["as"] in ("iter", "generator")]
     if oneshot:
         ctx.fault("one_shot_iterable_argument")
+    floats = [k for k, a in args.items() if a["mode"] == "explicit"
+              and a["as"] == "floats" and a["value"]]
+    if floats:
+        ctx.fault("whole_floats_as_explicit_argument")
+    if res[0] == "exc" and floats and isinstance(res[1], (ValueError,
+                                                           TypeError)):
+        # 1.0 is not the integer 1: refusing is fine, applying must give
+        # integer literals (checked below)
+        ctx.note("gray: whole floats refused")
+        return
     if res[0] == "exc" and oneshot and isinstance(res[1], TypeError):
         # the description speaks of lists / sequences, the parameter list
         # of iterables: refusing a one-shot iterator loudly is tolerated,
